@@ -189,13 +189,15 @@ CHECKS = {
     "C02": dict(
         engine="E1-collector",
         technique="Coq proof (frame description laws, entry fidelity as a step invariant of the work-list collector, children by kind) + in-Coq correspondence with real TriggerHandler/FrameCollector/VariableSetProcessor on synthetic frames + live programs with an independent recorder",
-        text="7 Coq theorems over Collector.v/Frames.v: one described frame per stack frame in order with its file, function, "
+        text="9 Coq theorems over Collector.v/Frames.v: one described frame per stack frame in order with its file, function, "
              "line and class; app flag and short path per the C19 laws; frame_type selects which frames carry variables; every "
              "table entry of every reachable collector state carries its object's type name, text cut at the limit, truncation "
-             "flag and identity; children are the object's children by kind (keys, first max_collection_size indexes, "
+             "flag and identity; the text of an exact dict/list/tuple/set/frozenset is 'Size: n' with n ALL its elements, computed "
+             "by the model (C02_container_text); children are the object's children by kind (keys, first max_collection_size indexes, "
              "attributes with private-name demangling). Tied to the code by running the real handler on generated object "
              "graphs in synthetic frame chains and comparing table, frame variables, watches and frame descriptions inside "
-             "Coq; plus live generated programs under sys.settrace with an independent reader of f_locals/f_back.",
+             "Coq (1-3 tracepoints on the line, every snapshot compared); plus live generated programs under sys.settrace with an "
+             "independent reader of f_locals/f_back.",
         note="Trusted: Coq kernel+VM; harness reader (objgen.Heap) and generators; id() injective on live objects; watch "
              "values supplied by the harness in place of eval (expression evaluation is C10); time budget not hit.",
         design="5-C02"),
